@@ -71,6 +71,9 @@ type JobOut struct {
 	RegionAborts int                `json:"region_aborts"`
 	MaxDepth     int                `json:"max_depth"`
 	Unknowns     int                `json:"unknowns"`
+	XChecked     int                `json:"xchecked"`
+	XAgree       int                `json:"xagree"`
+	XUnknown     int                `json:"xunknown"`
 	Exhausted    bool               `json:"exhausted"`
 	Violations   []interp.Violation `json:"violations"`
 	Witnesses    []interp.Witness   `json:"witnesses"`
@@ -151,7 +154,7 @@ func main() {
 				Paths: st.Paths, PathsDone: st.PathsDone, PathsAssume: st.PathsAssume, PathsViol: st.PathsViol,
 				Queries: st.Queries, SolverS: st.SolverTime.Seconds(), WallS: res.Wall.Seconds(), Instrs: st.Instrs,
 				Asserts: st.AssertChecks, AssertsConst: st.AssertConst, Reached: st.Reached, Obligations: st.Obligations,
-				Regions: st.Regions, RegionAborts: st.RegionAborts, MaxDepth: st.MaxDepth, Unknowns: st.Unknowns,
+				Regions: st.Regions, RegionAborts: st.RegionAborts, MaxDepth: st.MaxDepth, Unknowns: st.Unknowns, XChecked: res.XChecked, XAgree: res.XAgree, XUnknown: res.XUnknown,
 				Exhausted: res.Exhausted, Violations: res.Violations, Witnesses: res.Witnesses, Undecided: res.Undecided}
 		}(k)
 	}
